@@ -61,6 +61,8 @@ TRUSTED = [
     "_wait_to_handle_epr_responses as no-op, _execute_command yielding before delegating)",
 ]
 ASSUMPTIONS = [
+    "the result array of a CREATE request may be longer than 10*pairs (a reused buffer): the pair count comes "
+    "from the request arguments; for a receive request it is len/10 by definition",
     "application life cycle: stop_application may occur anywhere in a schedule (in well-formed scenarios after "
     "the application's subroutines have ended); it drops the application's memory and qubits only — requests, "
     "the pending list and the subroutine table are untouched (model action stopApp)",
@@ -194,7 +196,7 @@ def run(ctx):
         toks = H.interleave(rng, H.random_schedule(scs[0], rng, early=rng.choice([0, 1, 2])),
                             H.random_schedule(scs[1], rng, early=rng.choice([0, 1, 2])))
         _run_two(ctx, res, H, scs, toks)
-    n_random = 8000 if ctx.thorough else 1000
+    n_random = 8000 if ctx.thorough else 900
     for i in range(n_random):
         if len(res.failures) >= MAX_FAILURES:
             break
